@@ -29,3 +29,50 @@ pub fn c07_twin_reach() {
     let p = epserde::pad_align_to(v, 8);
     assert!(p != 5, "TWIN: must be violated");
 }
+
+use crate::universe::*;
+use core::marker::PhantomData;
+use core::mem::align_of;
+
+fn unit_ok<T: MaxSizeOf>() -> usize {
+    let u = T::max_size_of();
+    assert!(u != 0 && u & (u - 1) == 0, "C07: alignment unit is a power of two");
+    assert!(u >= align_of::<T>(), "C07: unit is no smaller than the native alignment");
+    u
+}
+
+/// (b) units of every zero-copy type of the universe: power of two, >= native
+/// alignment, >= the unit of every field (concrete evaluation, no symbolic input).
+#[cfg_attr(kani, kani::proof)]
+#[cfg_attr(kani, kani::unwind(4))]
+pub fn c07_units() {
+    // primitives and standard types
+    unit_ok::<u8>(); unit_ok::<u16>(); unit_ok::<u32>(); unit_ok::<u64>(); unit_ok::<u128>(); unit_ok::<usize>();
+    unit_ok::<i8>(); unit_ok::<i16>(); unit_ok::<i32>(); unit_ok::<i64>(); unit_ok::<i128>(); unit_ok::<isize>();
+    unit_ok::<f32>(); unit_ok::<f64>(); unit_ok::<bool>(); unit_ok::<char>(); unit_ok::<()>();
+    unit_ok::<PhantomData<u32>>(); unit_ok::<core::ops::RangeFull>();
+    unit_ok::<core::num::NonZeroU8>(); unit_ok::<core::num::NonZeroU64>(); unit_ok::<core::num::NonZeroI128>();
+    unit_ok::<core::ops::RangeTo<u32>>(); unit_ok::<core::ops::RangeToInclusive<u8>>();
+    // arrays and tuples take the unit of their element
+    assert!(unit_ok::<[u32; 3]>() >= unit_ok::<u32>(), "C07: array unit >= element unit");
+    assert!(unit_ok::<[(); 2]>() >= unit_ok::<()>(), "C07: array unit >= element unit");
+    assert!(unit_ok::<[ZeroS; 2]>() >= unit_ok::<ZeroS>(), "C07: array unit >= element unit");
+    assert!(unit_ok::<(u16, u16)>() >= unit_ok::<u16>(), "C07: tuple unit >= field unit");
+    assert!(unit_ok::<(u64, u64, u64)>() >= unit_ok::<u64>(), "C07: tuple unit >= field unit");
+    assert!(unit_ok::<((),)>() >= unit_ok::<()>(), "C07: tuple unit >= field unit");
+    // derived zero-copy types
+    let z = unit_ok::<ZeroS>();
+    assert!(z >= unit_ok::<u8>() && z >= unit_ok::<u32>(), "C07: struct unit >= every field's unit");
+    let t = unit_ok::<ZTail>();
+    assert!(t >= unit_ok::<u32>(), "C07: struct unit >= every field's unit");
+    assert!(unit_ok::<ZAl32>() >= 32, "C07: repr(align(32)) is honoured by the unit");
+    assert!(unit_ok::<ZGen<u64>>() >= unit_ok::<u64>(), "C07: generic struct unit >= field unit");
+    assert!(unit_ok::<ZGen<u128>>() >= unit_ok::<u128>(), "C07: generic struct unit >= field unit");
+    let n = unit_ok::<ZNest>();
+    assert!(n >= unit_ok::<ZeroS>() && n >= unit_ok::<[u16; 3]>(), "C07: nested struct unit >= every field's unit");
+    unit_ok::<ZUnit>();
+    assert!(unit_ok::<ZAl4>() >= 4, "C07: repr(align(4)) zero-sized struct");
+    assert!(unit_ok::<ZConst<3>>() >= unit_ok::<u16>(), "C07: tuple struct unit >= field unit");
+    let e = unit_ok::<ZE>();
+    assert!(e >= unit_ok::<u64>() && e >= unit_ok::<i32>(), "C07: enum unit >= every variant field's unit");
+}
